@@ -43,7 +43,7 @@ OK    == <<"ok", "">>
 InitState ==
   [ cell |-> <<>>, known |-> {}, dead |-> {}, cnt |-> <<>>, parent |-> <<>>,
     hreg |-> <<>>, greg |-> <<>>, xreg |-> <<>>, xcont |-> <<>>, pend |-> <<>>,
-    used |-> {}, exempt |-> {} ]
+    used |-> {}, exempt |-> {}, upanic |-> FALSE ]
 
 Put(f, k, v) == (k :> v) @@ f
 Del(f, k)    == [x \in (DOMAIN f) \ {k} |-> f[x]]
@@ -122,8 +122,6 @@ ArgLive(s, v) == Live(s, v)
 InvV(s, e) ==
   CASE e.op \in {"load", "load_full", "store", "swap", "cas", "rcu", "into_inner_c", "drop_c", "cache_new"}
          /\ e.c \notin DOMAIN s.cell -> <<"HARNESS", "operation on a container that does not exist">>
-    [] e.op \in {"store", "swap", "new"} /\ ~ArgLive(s, e.a) -> <<"HARNESS", "dead value passed in">>
-    [] e.op = "cas" /\ ~ArgLive(s, e.b) -> <<"HARNESS", "dead value passed in">>
     [] e.op \in {"drop_g", "into_inner", "drop_g_arg"} /\ Get(s.greg, e.r) # e.a -> <<"C10", "a guard no longer denotes the value it was created with">>
     [] e.op \in {"drop_h"} /\ Get(s.hreg, e.r) # e.a -> <<"HARNESS", "handle register mismatch">>
     [] e.op = "from_inner" /\ Get(s.hreg, e.b) # e.a -> <<"HARNESS", "handle register mismatch">>
@@ -148,6 +146,14 @@ InvE(s, e) ==
       a2 == IF e.op \in {"drop_c", "into_inner_c"} THEN s.cell[e.c] ELSE e.a
   IN IF e.op = "drop_g_arg" THEN s1
      ELSE Push(s1, t, [NewPend(e, seen) EXCEPT !.c = c2, !.a = a2])
+
+\* ---- arg(t, v): the value passed into the pending operation (new of store/swap/cas, initial value of new)
+ArgV(s, e) ==
+  CASE ~HasPend(s, e.t) -> <<"HARNESS", "argument without operation">>
+    [] ~Live(s, e.v) -> <<"HARNESS", "dead value passed in">>
+    [] OTHER -> OK
+ArgE(s, e) == LET p == Top(s, e.t) IN
+              SetTop(s, e.t, IF p.op = "cas" THEN [p EXCEPT !.b = e.v] ELSE [p EXCEPT !.a = e.v])
 
 \* ---- w(t, c, old, new): THE atomic exchange on the container
 WriterOf(s, t) == IF HasPend(s, t) THEN Top(s, t) ELSE NewPend([op |-> "none", c |-> -9, a |-> 0, b |-> 0, r |-> 0], {})
@@ -207,6 +213,7 @@ RetV(s, e) ==
     [] e.op = "into_inner" /\ ~Live(s, e.v) -> <<"C01", "Guard::into_inner returned a destroyed value">>
     [] e.op \in {"cache_load", "cache_new"} /\ e.v \notin p.seen
          -> <<"C16", "cache returned a value that is older than allowed or was never stored">>
+    [] e.op = "cache_clone" /\ e.v # Get(s.xreg, p.a) -> <<"C16", "a cloned cache does not retain the value of the original">>
     [] e.op \in {"cache_load", "cache_new", "cache_clone"} /\ ~Live(s, e.v) -> <<"C01", "cache returned a destroyed value">>
     [] OTHER -> OK
 
@@ -224,7 +231,7 @@ RetE(s, e) ==
        [] e.op = "into_inner_c"  -> [s0 EXCEPT !.hreg = Put(@, e.r, e.v)]
        [] e.op = "cache_new"     -> [s0 EXCEPT !.xreg = Put(@, e.r, e.v), !.xcont = Put(@, e.r, e.c)]
        [] e.op = "cache_load"    -> [s0 EXCEPT !.xreg = Put(@, e.r, e.v)]
-       [] e.op = "cache_clone"   -> [s0 EXCEPT !.xreg = Put(@, e.r, e.v), !.xcont = Put(@, e.r, p.c)]
+       [] e.op = "cache_clone"   -> [s0 EXCEPT !.xreg = Put(@, e.r, e.v), !.xcont = Put(@, e.r, Get(s.xcont, p.a))]
        [] OTHER -> s0
 
 \* ---- deref(t, k, r, o, alive, tag): user code looks at the value through a guard / handle / cache
@@ -244,27 +251,29 @@ PanicV(s, e) ==
     [] p.op = "rcu" /\ p.wrote -> <<"C18", "a panicking rcu closure changed the container">>
     [] OTHER -> OK
 \* the unwound operation disappears; a value displaced by its own write is released by the library
-PanicE(s, e) == [s EXCEPT !.pend = Put(@, e.t, <<>>)]
+PanicE(s, e) == [s EXCEPT !.pend = Put(@, e.t, <<>>), !.upanic = TRUE]
 
 \* ---- q(cnt, dead, slots, busy, wr): a quiescent point (no thread inside an operation)
 QCnt(e, o) == LET m == {i \in 1..Len(e.cnt) : e.cnt[i][1] = o} IN
               IF m = {} THEN 0 ELSE e.cnt[CHOOSE i \in m : TRUE][2]
 QSlots(e, o) == Cardinality({i \in 1..Len(e.slots) : e.slots[i] = o})
+\* after a panic in user code the ledger clauses are the "consistent after unwinding" claim (C18)
+LP(s) == IF s.upanic THEN "C18" ELSE "C02"
 QuiescentV(s, e) ==
   CASE \E t \in DOMAIN s.pend : s.pend[t] # <<>> -> <<"HARNESS", "quiescent point with pending operation">>
     [] \E o \in s.known \ s.dead : QCnt(e, o) # s.cnt[o] -> <<"HARNESS", "count shadow differs from the pointer's own count">>
-    [] \E i \in 1..Len(e.slots) : e.slots[i] \notin (s.known \ s.dead)
-         -> <<"C02", "a borrow slot is occupied by something that is not a live value">>
+    [] \E i \in 1..Len(e.slots) : e.slots[i] # Null /\ e.slots[i] \notin (s.known \ s.dead)
+         -> <<LP(s), "a borrow slot is occupied by something that is not a live value">>
     [] \E o \in s.known \ s.dead : s.cnt[o] + QSlots(e, o) > Owners(s, o)
-         -> <<"C02", "a value has more references than owners (leak)">>
+         -> <<LP(s), "a value has more references than owners (leak)">>
     [] \E o \in s.known \ s.dead : s.cnt[o] + QSlots(e, o) < Owners(s, o)
-         -> <<"C02", "a value has fewer references than owners (double release pending)">>
-    [] \E o \in s.known \ s.dead : QSlots(e, o) > Cardinality({g \in DOMAIN s.greg : s.greg[g] = o})
-         -> <<"C02", "a borrow slot stays occupied after its guard is gone">>
+         -> <<LP(s), "a value has fewer references than owners (double release pending)">>
+    [] \E o \in (s.known \ s.dead) \cup {Null} : QSlots(e, o) > Cardinality({g \in DOMAIN s.greg : s.greg[g] = o})
+         -> <<LP(s), "a borrow slot stays occupied after its guard is gone">>
     [] \E o \in s.known \ s.dead : Owners(s, o) = 0
-         -> <<"C02", "a value without owners has not been destroyed (reclamation is not tight)">>
+         -> <<LP(s), "a value without owners has not been destroyed (reclamation is not tight)">>
     [] \E o \in s.dead : Referenced(s, o) -> <<"C01", "a destroyed value is still referenced">>
-    [] e.busy # 0 -> <<"C02", "a read transaction was left open at a quiescent point">>
+    [] e.busy # 0 -> <<LP(s), "a read transaction was left open at a quiescent point">>
     [] e.wr # 0 -> <<"C11", "a writer reservation was left behind at a quiescent point">>
     [] OTHER -> OK
 
@@ -277,12 +286,14 @@ Verdict(s, e) ==
     [] e.e = "dec"     -> DecV(s, e)
     [] e.e = "destroy" -> DestroyV(s, e)
     [] e.e = "inv"     -> InvV(s, e)
+    [] e.e = "arg"     -> ArgV(s, e)
     [] e.e = "w"       -> WriteV(s, e)
     [] e.e = "rcu_f"   -> RcuFV(s, e)
     [] e.e = "ret"     -> RetV(s, e)
     [] e.e = "deref"   -> DerefV(s, e)
     [] e.e = "panic"   -> PanicV(s, e)
     [] e.e = "q"       -> QuiescentV(s, e)
+    [] e.e = "crash"   -> <<"C13", "the process aborted or hung inside an operation">>
     [] OTHER -> OK
 
 Effect(s, e) ==
@@ -291,6 +302,7 @@ Effect(s, e) ==
     [] e.e = "dec"     -> DecE(s, e)
     [] e.e = "destroy" -> DestroyE(s, e)
     [] e.e = "inv"     -> InvE(s, e)
+    [] e.e = "arg"     -> ArgE(s, e)
     [] e.e = "w"       -> WriteE(s, e)
     [] e.e = "rcu_f"   -> RcuFE(s, e)
     [] e.e = "ret"     -> RetE(s, e)
